@@ -33,7 +33,7 @@ type outRange struct {
 	start, end uintptr
 }
 
-var spareChoices = []int{0, 1, 7, 64}
+var spareChoices = []int{0, 1, 7, 15, 16, 17, 32, 64}
 
 // in returns a copy of data placed in a fresh arena with a drawn amount of spare capacity.
 func (p *probe) in(label string, data []byte) []byte {
